@@ -167,6 +167,14 @@ func (e *EndpointExporter) setCommonAttributes(
 		param = param.AsOptional()
 	}
 	if param.Type == object {
+		// only body parameters are created with a schema; a path or query parameter of a
+		// reference type gets one here
+		if param.Schema == nil {
+			param.Schema = &spec.Schema{}
+		}
+		if param.Schema.ExtraProps == nil {
+			param.Schema.ExtraProps = map[string]interface{}{}
+		}
 		param.Schema.ExtraProps["$ref"] = "#/definitions/" + param.Format
 	}
 }
